@@ -327,4 +327,36 @@ Proof.
   unfold agree_on. cbn [r1 clear_log r_st]. rewrite Hk, Hfresh. reflexivity.
 Qed.
 
+(* ------------------------------------------------------------------ "as if run alone" *)
+(* the history as key j sees it: only the operations on j *)
+Definition restrict_to (j : Z) (c : cyc) : cyc :=
+  mkCyc (c_t c) (c_bc c) (filter (fun o => snd (fst o) =? j) (c_ops c)).
+
+Lemma ops_on_restrict j ops : ops_on j (filter (fun o : nat * Z * Z * Z => snd (fst o) =? j) ops) = ops_on j ops.
+Proof.
+  unfold ops_on. induction ops as [|[[[d c] k] v] r IH]; [reflexivity|]. cbn [filter fst snd map].
+  destruct (k =? j) eqn:E; cbn [filter fst snd map]; rewrite ?E; cbn [map]; [f_equal|]; exact IH.
+Qed.
+
+Lemma same_for_restrict j h : Forall2 (same_for j) h (map (restrict_to j) h).
+Proof.
+  induction h as [|c r IH]; cbn [map]; constructor; [|exact IH].
+  unfold same_for, restrict_to. cbn [c_t c_bc c_ops]. repeat split. symmetry. apply ops_on_restrict.
+Qed.
+
+(* runs_alone: key j's trace in the map - whatever the other keys, their bodies and their histories are -
+   is its trace in a map whose key universe is {j} alone, fed only the operations on j. *)
+Lemma runs_alone (B : Z -> body S) ndict keys h j :
+  In j keys ->
+  key_trace j (r_log (run B (start_state ndict keys) h)) =
+  key_trace j (r_log (run B (start_state ndict [j]) (map (restrict_to j) h))).
+Proof.
+  intros Hin.
+  apply (isolated_gen B B j h (map (restrict_to j) h) (start_state ndict keys) (start_state ndict [j]));
+    [reflexivity| |apply same_for_restrict|reflexivity].
+  unfold agree_on. cbn [start_state r_st map kget fst]. rewrite Z.eqb_refl.
+  induction keys as [|k r IH]; [destruct Hin|]. cbn [map kget fst snd].
+  destruct (k =? j) eqn:E; [reflexivity|]. apply IH. destruct Hin as [->|H]; [lia|exact H].
+Qed.
+
 End Facts.
